@@ -1,6 +1,6 @@
 """C06 — every reply respects what the client sent and negotiated."""
 
-_H = {"server": ["zz_verif_srv_*.go", "zz_verif_c05_test.go", "zz_verif_c06_test.go", "zz_verif_c06_doq_test.go"], "middleware": ["zz_verif_export.go"]}
+_H = {"server": ["zz_verif_srv_*.go", "zz_verif_c05_test.go", "zz_verif_c06_test.go", "zz_verif_c06_doq_test.go", "zz_verif_c06_edesize_test.go"], "middleware": ["zz_verif_export.go"]}
 
 CHECK = {
     "level": "exploration",
@@ -13,6 +13,8 @@ CHECK = {
     "bounds": {"quick": "3 configs x 16 targets x 2 transports x ~150 packets x 4-5 paths (decoded, strict, ServeMsg, inline+replay on UDP, DoH POST+GET on the stream cases)", "thorough": "5 configs, + all option pairs and all 128 flag combinations"},
     "units": {
         "sweep": {"pkg": "server", "run": "TestVerifC06", "harness": _H, "stub_tests": ["server"], "budget_s": {"quick": 80, "thorough": 700}},
+        # the UDP size clause at its boundary for EDE-bearing cached answers (every body size in a window below / across 512 and 1232)
+        "edesize": {"pkg": "server", "run": "TestVerifC06EDESize", "harness": _H, "stub_tests": ["server"], "shards": 2, "budget_s": {"quick": 60, "thorough": 200}},
         # the same alphabet through a real DNS-over-QUIC server and client on loopback (reply ID must be 0)
         "doq": {"pkg": "server", "run": "TestVerifC06DoQ", "harness": _H, "stub_tests": ["server"], "shards": 8, "budget_s": {"quick": 60, "thorough": 300}},
     },
